@@ -423,7 +423,7 @@ def r17_7(ctx, layers):
                         continue  # infeasible under the established invariant
                     ev = [e for e in p.events if e[0] == "call" and e[1].rsplit("::", 1)[1] == "match_value"]
                     for e in p.events:
-                        if e[0] == "call" and e[1].endswith("BTreeMap::insert") and e[2][0][0] in ("local", "param", "havoc"):
+                        if e[0] == "call" and e[1].rsplit("::", 1)[1] == "insert" and ("BTreeMap" in e[1] or "HashMap" in e[1]) and (e[2][0][0] in ("local", "param", "havoc") or (e[2][0][0] == "field" and e[2][0][1][0] in ("local", "havoc")) or (e[2][0][0] == "call" and e[2][0][1].endswith("Map::new"))):
                             n_ins += 1
                             val = e[2][2]
                             if not ev:
